@@ -11,6 +11,11 @@
 //	jwt-custom-kid-parameters-lossy:<JwtType>   SerializeParameters of JWT parameters with kid strategy
 //	    CUSTOM yields the template of IGNORED-kid parameters (output prefix RAW, no field for the
 //	    strategy): ParseParameters(SerializeParameters(p)) is not Equal to p.
+//	jwt-custom-kid-parameters-lossy:PrfBasedDeriver   the same loss seen through a deriver key whose
+//	    derived-key parameters are such JWT parameters (the deriver's key format embeds their template):
+//	    neither the key nor its parameters round-trip to an Equal object.
+//	Both are excused only in exactly that shape: the parsed object re-serializes to the same bytes and
+//	carries no ID requirement.
 package c12
 
 import (
@@ -26,6 +31,7 @@ import (
 	tinkpb "github.com/tink-crypto/tink-go/v2/proto/tink_go_proto"
 	"github.com/tink-crypto/tink-go/v2/verifharness/internal/detrand"
 	"github.com/tink-crypto/tink-go/v2/verifharness/internal/evid"
+	"github.com/tink-crypto/tink-go/v2/verifharness/internal/gen"
 	"github.com/tink-crypto/tink-go/v2/verifharness/internal/keys"
 	"github.com/tink-crypto/tink-go/v2/verifharness/internal/kf"
 )
@@ -86,10 +92,11 @@ func roundTripKey(rt *rapid.T, info *keys.Info, k key.Key, public bool) bool {
 	desc := fmt.Sprintf("%s [%s]", info.Desc, what)
 	ks, err := protoserialization.SerializeKey(k)
 	if err != nil {
-		// "Not serializable" is allowed only as a clean error, and never for a working key whose
-		// parameters the proto format can represent.
-		if info.Usable && !info.NoSerialization {
-			rt.Fatalf("%s: SerializeKey refuses a usable key: %v", desc, err)
+		// "Not serializable" is allowed only as a clean error, and only for the keys whose parameters the
+		// proto format cannot represent (keys.Info.NoSerialization is that exact list) - whether or not a
+		// primitive can be built from the key.
+		if !info.NoSerialization {
+			rt.Fatalf("%s: SerializeKey refuses a key whose parameters the proto format can represent: %v", desc, err)
 		}
 		evid.Add("not_serializable/"+info.Type, 1)
 		return false
@@ -123,7 +130,25 @@ func roundTripKey(rt *rapid.T, info *keys.Info, k key.Key, public bool) bool {
 		rt.Fatalf("%s: parsed into a FallbackProtoPrivateKey", desc)
 	}
 	if !k2.Equal(k) || !k.Equal(k2) {
+		if info.Lossy && info.Type == "PrfBasedDeriver" && !public {
+			// Derived-key parameters of a JWT type with kid strategy CUSTOM: the deriver's key format embeds
+			// their template, which is the template of IGNORED-kid parameters (same root cause as the listed
+			// jwt-custom-kid-parameters-lossy:<JwtType>).  Excused only in exactly that shape: the parsed key
+			// serializes to the same bytes again, has the same ID requirement and PRF key, and its derived
+			// parameters carry no ID requirement.
+			ks2, err := protoserialization.SerializeKey(k2)
+			id2, has2 := k2.IDRequirement()
+			if err != nil || !proto.Equal(ks2.KeyData(), first) || has2 || id2 != 0 || info.HasID || k2.Parameters().HasIDRequirement() {
+				rt.Fatalf("%s: parse(serialize(key)) is not Equal to the key, and not in the shape of the known custom-kid loss (reserialization err %v, ID requirement (%#x,%v)) (value %x)", desc, err, id2, has2, first.GetValue())
+			}
+			knownOrFail(rt, "jwt-custom-kid-parameters-lossy:PrfBasedDeriver", fmt.Sprintf(
+				"%s: parse(serialize(key)) is not Equal to the key: the derived-key parameters have kid strategy CUSTOM, their template parses back as IGNORED (value %x)", desc, first.GetValue()))
+			return true
+		}
 		rt.Fatalf("%s: parse(serialize(key)) is not Equal to the key (value %x)", desc, first.GetValue())
+	}
+	if info.Lossy {
+		evid.Add("round_trips_although_flagged_lossy/"+info.Type, 1)
 	}
 	if k2.Parameters() == nil || !k2.Parameters().Equal(k.Parameters()) || !k.Parameters().Equal(k2.Parameters()) {
 		rt.Fatalf("%s: parameters of parse(serialize(key)) are not Equal to the key's parameters", desc)
@@ -171,7 +196,10 @@ func roundTripKey(rt *rapid.T, info *keys.Info, k key.Key, public bool) bool {
 		}
 		ak, err := protoserialization.ParseKey(aks)
 		if err != nil {
-			rt.Fatalf("%s: the %s encoding of the key's integers is refused: %v\n value %x", desc, alt.name, err, alt.value)
+			// C12 speaks about what the library's own serializer wrote; that a parser also reads the other
+			// equally valid encodings of the same integers is not in the text: counted, not asserted.
+			evid.Add("observed_not_asserted/alt_encoding_refused/"+info.Type+"/"+what+"/"+alt.name, 1)
+			continue
 		}
 		// The parsed key is a key of the type like any other: C12 holds for it.
 		aks2, err := protoserialization.SerializeKey(ak)
@@ -210,8 +238,8 @@ func roundTripParameters(rt *rapid.T, info *keys.Info) bool {
 	}
 	tmpl, err := protoserialization.SerializeParameters(p)
 	if err != nil {
-		if info.Usable && !info.NoSerialization {
-			rt.Fatalf("%s: SerializeParameters refuses the parameters of a usable key: %v", desc, err)
+		if !info.NoSerialization {
+			rt.Fatalf("%s: SerializeParameters refuses parameters the proto format can represent: %v", desc, err)
 		}
 		evid.Add("parameters_not_serializable/"+info.Type, 1)
 		return false
@@ -232,9 +260,16 @@ func roundTripParameters(rt *rapid.T, info *keys.Info) bool {
 		rt.Fatalf("%s: ParseParameters of the parameters' own serialization (%x): %v", desc, first.GetValue(), err)
 	}
 	if !p2.Equal(p) || !p.Equal(p2) || p2.HasIDRequirement() != info.HasID {
-		if ks, ok := info.Fields["kid_strategy"].(string); ok && ks == keys.KIDCustom {
+		if ks, _ := info.Fields["kid_strategy"].(string); ks == keys.KIDCustom || (info.Type == "PrfBasedDeriver" && info.Lossy) {
+			// (a PrfBasedDeriver is Lossy when its derived-key parameters are such JWT parameters)
 			// The JWT key formats have no field for "the key will carry a custom kid": the template of
-			// CUSTOM-kid parameters is the template of IGNORED-kid parameters.
+			// CUSTOM-kid parameters is the template of IGNORED-kid parameters.  Only exactly that loss is
+			// excused: the parsed parameters serialize to the same template again and carry no ID requirement.
+			tmpl2, err := protoserialization.SerializeParameters(p2)
+			if err != nil || !proto.Equal(tmpl2, first) || p2.HasIDRequirement() || info.HasID {
+				rt.Fatalf("%s: parse(serialize(parameters)) is not Equal, and not in the shape of the known custom-kid loss (reserialization err %v, same template %v, HasIDRequirement %v) (template value %x)",
+					desc, err, err == nil && proto.Equal(tmpl2, first), p2.HasIDRequirement(), first.GetValue())
+			}
 			knownOrFail(rt, "jwt-custom-kid-parameters-lossy:"+info.Type, fmt.Sprintf(
 				"%s: parse(serialize(parameters)) is not Equal: the kid strategy CUSTOM is serialized as output prefix RAW and parsed back as IGNORED (template value %x)", desc, first.GetValue()))
 			return false
@@ -260,12 +295,13 @@ func TestKeyRoundTrip(t *testing.T) {
 	rapid.Check(t, func(rt *rapid.T) {
 		detrand.Seed(rapid.Uint64().Draw(rt, "entropy"))
 		// uniformly over the 29 key types (drawing the class first would starve the 7 signature types)
-		info := keys.DrawType(rt, "key", rapid.SampledFrom(keys.AllTypes()).Draw(rt, "type"))
+		info := keys.DrawType(rt, "key", gen.Pick(rt, "type", keys.AllTypes()))
 		ok := roundTripKey(rt, info, info.Key, false)
 		if info.Public != nil {
 			okPub := roundTripKey(rt, info, info.Public, true)
 			if ok != okPub {
-				rt.Fatalf("%s: private key serializable = %v, public key serializable = %v", info.Desc, ok, okPub)
+				// not in the property text (each key object either serializes or is refused cleanly)
+				evid.Add("observed_not_asserted/private_public_serializable_differ/"+info.Type, 1)
 			}
 		}
 		okParams := roundTripParameters(rt, info)
